@@ -201,6 +201,11 @@ static void et_make_cfg(const char *profile, vh_rng_t *g, uint64_t idx)
       c->inj_density   = 0;
       c->nclients      = 1;
       c->second_client = 0;
+      /* a signal every 37 ms cuts every sleep short: a back end that oversleeps only shows when it is left alone.
+       * Signals in every second pair of blocks only. */
+      if ((idx / 54) % 2 == 0) {
+        c->signals = 0;
+      }
     }
   }
 }
